@@ -837,7 +837,8 @@ fn handle_special_immediates(offset: u8, special: SpecialComm, imm: &syn::Expr, 
             return Ok(());
         },
         SpecialComm::FLOAT_IMMEDIATE => if let Some(number) = as_float(imm) {
-            if let Some(encoded) = encoding_helpers::encode_floating_point_immediate(number as f32) {
+            // the literal is a double: it has to be one of the representable values exactly, not merely round to one
+            if let Some(encoded) = Some(number as f32).filter(|&f| f64::from(f) == number).and_then(encoding_helpers::encode_floating_point_immediate) {
                 statics.push((offset, u32::from(encoded)));
                 return Ok(());
             }
@@ -858,7 +859,7 @@ fn handle_special_immediates(offset: u8, special: SpecialComm, imm: &syn::Expr, 
             return Ok(());
         },
         SpecialComm::SPLIT_FLOAT_IMMEDIATE => if let Some(number) = as_float(imm) {
-            if let Some(encoded) = encoding_helpers::encode_floating_point_immediate(number as f32) {
+            if let Some(encoded) = Some(number as f32).filter(|&f| f64::from(f) == number).and_then(encoding_helpers::encode_floating_point_immediate) {
                 statics.push((offset, u32::from(encoded & 0x1F)));
                 statics.push((offset + 6, u32::from(encoded & 0xE0)));
                 return Ok(());
